@@ -124,6 +124,15 @@ theorem scanObs_out (tbl : List QMsg) (s : Scan) (o : Obs) : ∃ d, (scanObs tbl
   | enter c => exact ⟨[], by simp [scanObs]⟩
   | polled c e => cases e <;> simp [scanObs]
 
+/-- The reporter calls one event causes do not depend on the calls made before (the driver scans incrementally). -/
+theorem scanObs_out_split (tbl : List QMsg) (s : Scan) (o : Obs) :
+    scanObs tbl s o =
+      { scanObs tbl { s with out := [] } o with out := s.out ++ (scanObs tbl { s with out := [] } o).out } := by
+  cases o with
+  | publish c m q out => cases out <;> simp [scanObs]
+  | polled c e => cases e <;> simp [scanObs]
+  | _ => simp [scanObs]
+
 /-! ## filter -/
 
 theorem fApplyAll_append (r : FilterRec) (a b : List Nat) : r.applyAll (a ++ b) = (r.applyAll a).applyAll b := by
@@ -165,5 +174,87 @@ theorem sum_bumpRouter (i : Nat) (rs : List (Nat × Nat)) :
     by_cases hk : k = i
     · simp [bumpRouter, hk]; omega
     · simp only [bumpRouter, hk, if_false, List.map_cons, List.sum_cons, ih]; omega
+
+/-! ## calls and lines, without unfolding the metric constants -/
+
+open Rotonda.ConnMetrics (linesOfV groupLines)
+
+theorem callLines_simple (m : Metric) (u v : Str) (h : m.mtype ≠ .text) :
+    callLines (simple m u v) = [.help (fullName m none) m.help, .type (fullName m none) m.mtype,
+      .sample (fullName m none) (some [(componentLabel, u)]) v] := by
+  unfold callLines simple
+  cases hm : m.mtype <;> simp_all [recLine]
+
+theorem callLines_labelled (m : Metric) (u l lv v : Str) (h : m.mtype ≠ .text) :
+    callLines (labelled m u l lv v) = [.help (fullName m none) m.help, .type (fullName m none) m.mtype,
+      .sample (fullName m none) (some [(componentLabel, u), (l, lv)]) v] := by
+  unfold callLines labelled
+  cases hm : m.mtype <;> simp_all [recLine]
+
+theorem callLines_text (m : Metric) (u v : Str) (h : m.mtype = .text) : callLines (simple m u v) = [] := by
+  unfold callLines simple
+  simp [h]
+
+theorem live_simple (m : Metric) (u v : Str) (cs : List Call) (h : m.mtype ≠ .text) :
+    liveCalls (simple m u v :: cs) = simple m u v :: liveCalls cs := by
+  have : (m.mtype != .text) = true := by simpa using h
+  simp [liveCalls, List.filter_cons, simple, this]
+
+theorem live_text (m : Metric) (u v : Str) (cs : List Call) (h : m.mtype = .text) :
+    liveCalls (simple m u v :: cs) = liveCalls cs := by
+  simp [liveCalls, List.filter_cons, simple, h]
+
+theorem live_labelled_map {α : Type} (m : Metric) (u l : Str) (f g : α → Str) (xs : List α) (h : m.mtype ≠ .text) :
+    liveCalls (xs.map (fun p => labelled m u l (f p) (g p))) = xs.map (fun p => labelled m u l (f p) (g p)) := by
+  have : (m.mtype != .text) = true := by simpa using h
+  simp only [liveCalls]
+  rw [List.filter_eq_self]
+  intro c hc
+  obtain ⟨p, _, rfl⟩ := List.mem_map.mp hc
+  simpa [labelled] using this
+
+theorem liveCalls_append (a b : List Call) : liveCalls (a ++ b) = liveCalls a ++ liveCalls b := by
+  simp [liveCalls]
+
+theorem headName_simple (m : Metric) (u v : Str) : headName (simple m u v) = fullName m none := rfl
+theorem headName_labelled (m : Metric) (u l lv v : Str) : headName (labelled m u l lv v) = fullName m none := rfl
+
+/-- Well-formedness of a metric constant: its full name is a metric name, its help text needs no escaping. -/
+def Metric.ok (m : Metric) : Bool := isName (fullName m none) && docOK m.help && m.help.all notNl && m.mtype != .text
+
+theorem simple_wf (m : Metric) (u v : Str) (hm : Metric.ok m = true) (hv : isNumber v = true) :
+    (simple m u v).wf = true := by
+  simp only [Metric.ok, Bool.and_eq_true] at hm
+  simp [simple, Call.wf, hm.1.1.1, hm.1.1.2, hm.1.2, hv]
+
+theorem labelled_wf (m : Metric) (u l lv v : Str) (hm : Metric.ok m = true) (hl : isLName l = true)
+    (hv : isNumber v = true) : (labelled m u l lv v).wf = true := by
+  simp only [Metric.ok, Bool.and_eq_true] at hm
+  simp [labelled, Call.wf, hm.1.1.1, hm.1.1.2, hm.1.2, hv, hl]
+
+theorem ok_live {m : Metric} (h : Metric.ok m = true) : m.mtype ≠ .text := by
+  simp only [Metric.ok, Bool.and_eq_true] at h
+  simpa using h.2
+
+theorem mEstablished_ok : Metric.ok mEstablished = true := by decide
+theorem mLost_ok : Metric.ok mLost = true := by decide
+theorem mConnErr_ok : Metric.ok mConnErr = true := by decide
+theorem mPublish_ok : Metric.ok mPublish = true := by decide
+theorem mPubErr_ok : Metric.ok mPubErr = true := by decide
+theorem mInflight_ok : Metric.ok mInflight = true := by decide
+theorem mGateUpdates_ok : Metric.ok mGateUpdates = true := by decide
+theorem mGateDropped_ok : Metric.ok mGateDropped = true := by decide
+theorem mGateSetSize_ok : Metric.ok mGateSetSize = true := by decide
+theorem mGateAgo_ok : Metric.ok mGateAgo = true := by decide
+theorem mFiltered_ok : Metric.ok mFiltered = true := by decide
+theorem mAssemble_ok : Metric.ok mAssemble = true := by decide
+theorem mGateWhen_text : mGateWhen.mtype = .text := rfl
+theorem topicLabel_ok : isLName topicLabel = true := by decide
+theorem routerLabel_ok : isLName routerLabel = true := by decide
+
+/-- The full names of the mqtt source's six metrics are pairwise different. -/
+theorem mqtt_names_nodup :
+    [fullName mEstablished none, fullName mLost none, fullName mConnErr none, fullName mInflight none,
+      fullName mPubErr none, fullName mPublish none].Nodup := by decide
 
 end Rotonda.UnitMetrics
